@@ -298,8 +298,13 @@ def tlc_tv(module, cfg, trace_path, timeout=600, name=None, extra_env=None):
 
 # ----------------------------------------------------------------------------- verdicts
 
+CURRENT = None      # the Check of this run (vcheck reports its completed legs when a later leg is a tool error)
+
+
 class Check:
     def __init__(self, pid, tier, level="model_checking"):
+        global CURRENT
+        CURRENT = self
         self.pid = pid
         self.tier = tier
         self.seed = seed_default()
@@ -356,6 +361,30 @@ class Check:
         self.violations.append((key, what, replay_obj))
 
     # -- end of run
+    def after_tool_error(self, err):
+        """A later leg of the check ended as a tool error.  What the legs that DID complete found is a verdict all the
+        same: unlisted violations are reported (exit 1); without any, the run stays a tool error (exit 2).  (A change to
+        the repository that breaks one leg's set-up - an import that no longer runs, a node that no longer starts - must not
+        hide what another leg has already shown.)  No evidence file is written."""
+        known_keys = {k["key"] for k in self.known.get("known", []) if k.get("property") == self.pid}
+        unlisted = [(k, w, o) for k, w, o in self.violations if k not in known_keys]
+        if not unlisted:
+            return None
+        d = os.path.join(REPLAYS, self.pid)
+        os.makedirs(d, exist_ok=True)
+        seen = set()
+        for key, what, obj in unlisted:
+            if key in seen:
+                continue
+            seen.add(key)
+            path = os.path.join(d, "%s_%d.json" % (self.tier, len(seen)))
+            with open(path, "w") as f:
+                json.dump({"property": self.pid, "key": key, "what": what, "replay": obj, "later_tool_error": str(err)}, f, indent=1)
+            print("VIOLATION property=%s replay=%s" % (self.pid, path), flush=True)
+            print("  what: %s [%s]" % (what, key), flush=True)
+        log("%s %s: %d violation(s) from the completed legs; a later leg failed: %s" % (self.pid, self.tier, len(seen), err))
+        return 1
+
     def finish(self, rule, extra=None, exhaustive=False, checker_cmd=None, trusted_base=None):
         known_keys = {k["key"]: k for k in self.known.get("known", []) if k.get("property") == self.pid}
         unlisted = []
